@@ -19,6 +19,10 @@ class ClassRefinement(AnalysisError):
     from a rule that is stated over those classes."""
 
 
+class DisciplineError(AnalysisError):
+    """The copy-on-first-change idiom itself is broken (prefix/suffix split, buffer start)."""
+
+
 def is_popped(v):
     return isinstance(v, Sym) and isinstance(v.name, tuple) and len(v.name) == 2 and v.name[0] == "popped"
 
@@ -46,6 +50,8 @@ class FcdWorld(au.CutWorld):
             return self.class_oracles[p](c.name[2], c)
         if p in self.extra:
             return self.extra[p](self, m, st, callee, args, term)
+        if args and (au.is_ch(args[0]) or is_popped(args[0])) and p not in self.prog.bodies and "::<impl char>::" in p:
+            raise ClassRefinement("the code asks %s about a character: the answer is not determined by the character classes %s the rule is stated over" % (p, self.alphabet))
         return au.CutWorld.call(self, m, st, callee, args, term)
 
     def compare_hook(self, st, op, a, b):
@@ -56,7 +62,8 @@ class FcdWorld(au.CutWorld):
             r = a.name[-1] in classes
             return r if op == "Eq" else not r
         if au.is_ch(a) or au.is_ch(b):
-            raise AnalysisError("comparison %s between %r and %r is not determined by the character classes" % (op, a, b))
+            other = b if au.is_ch(a) else a
+            raise ClassRefinement("a character is compared (%s) with %s: the result then depends on more than the character classes %s the rule is stated over" % (op, ("U+%04X" % other.v) if isinstance(other, I) else "another value", self.alphabet))
         return None
 
     # ---- find / slicing / buffer
@@ -72,7 +79,7 @@ class FcdWorld(au.CutWorld):
                 # an external predicate (char::is_uppercase ...): answered by the class oracle
                 h = self.class_oracles.get(v.path)
                 if h is None:
-                    raise AnalysisError("trigger predicate %s has no class oracle" % v.path)
+                    raise ClassRefinement("the trigger predicate is %s: its answer is not determined by the character classes %s the rule is stated over" % (v.path, self.alphabet))
                 return h(cls, au.ch(0, cls))
             fr = ip.Frame(body, sub.fresh())
             fr.locals[1] = au.ch(0, cls)
@@ -113,7 +120,7 @@ class FcdWorld(au.CutWorld):
         kind = r.ty.rsplit("::", 1)[1]
         b = r.fields[0] if r.fields else None
         if not (isinstance(b, Sym) and b.name == ("pos",)):
-            raise AnalysisError("slice bound %r is not the position returned by find (prefix and suffix must meet exactly there)" % (b,))
+            raise DisciplineError("slice bound %s is not the position returned by find: the copied prefix and the mapped suffix must meet exactly there" % (("pos%+d" % b.name[2]) if isinstance(b, Sym) and isinstance(b.name, tuple) and b.name[0] == "lin" else repr(b)))
         if kind == "RangeTo":
             return Str(("prefix",))
         if kind == "RangeFrom":
@@ -122,7 +129,7 @@ class FcdWorld(au.CutWorld):
 
     def new_buf(self, st, content):
         if not (isinstance(content, Str) and content.tag == ("prefix",)):
-            raise AnalysisError("the output buffer is started from %r, not from the unchanged prefix s[..pos]" % (content,))
+            raise DisciplineError("the output buffer is started from %r, not from the unchanged prefix s[..pos]" % (content,))
         return Opq("buf", ("prefix",))
 
     def buf_content(self, st, buf):
@@ -212,6 +219,9 @@ def analyse(prog, rep, rule, fn_key, world, args=None):
         aut = au.extract(prog, world2, fn_key, st_args, world.alphabet, result_of=result_desc(prog))
     except ClassRefinement as e:
         rep.ob(rule, "depends only on the character classes", False, str(e), b.where(), key="%s|trigger-or-map-finer-than-classes" % rule)
+        return None
+    except DisciplineError as e:
+        rep.ob(rule, "prefix copied verbatim, suffix mapped, split at find's position", False, str(e), b.where(), key="%s|split" % rule)
         return None
     except AnalysisError as e:
         rep.analysis_error(rule, fn_key, e, b.where())
